@@ -98,8 +98,10 @@ class StrictSolver(object):
             out = []
             for t in cmd[1]:
                 s, f = self.it.elab(t, {})
-                out.append("(%s %s)" % (self.unparse(t), print_value(s, f(self.model))))
-            return "(" + " ".join(out) + ")"
+                # like z3 for long terms, the value is printed on its own line: replies are
+                # s-expressions, not lines
+                out.append("(%s\n   %s)" % (self.unparse(t), print_value(s, f(self.model))))
+            return "(" + "\n ".join(out) + ")"
         if c == "exit":
             self.exited = True
             return "success" if self.it.print_success else None
